@@ -388,6 +388,9 @@ def range_ok(fn, arg):
         if k == 'Struct' and (oo.get('def') or '').startswith('std::ops::Range'):
             for f in oo['fields']:
                 todo.extend(H.origins(fn, f['e']))
+            why = range_ends_ordered(fn, oo)
+            if why:
+                problems.append(why)
             continue
         if k == 'Lit' and oo.get('v') == 0:
             n_ok += 1
@@ -405,6 +408,47 @@ def range_ok(fn, arg):
     if problems:
         return False, 'range derives from %s (arithmetic or unknown source: may leave the text or split a character)' % '; '.join(problems[:3])
     return True, 'derives from byte_range()/start/end of syntax nodes or IR items (%d origin(s)), no arithmetic' % n_ok
+
+
+def range_ends_ordered(fn, rng):
+    """`A.start..B.end` built from two different items: the start item must not come after the end item. Understood: the two are elements
+    `xs[i]` and `xs[j]` of one sequence and a dominating `if P > Q` gives i = Q, j = P - 1 (or both indices are literals). Returns a
+    problem text, or None."""
+    ends = {}
+    for f in rng.get('fields', []):
+        orgs = [H.strip_refs(o) for o in H.origins(fn, f['e'])]
+        if len(orgs) != 1 or orgs[0].get('k') != 'Field' or orgs[0].get('f') not in ('start', 'end'):
+            return None
+        base = H.strip_refs(orgs[0]['e'])
+        while (base.get('k') == 'Field' and base.get('f') == 'byte_range') or (base.get('k') == 'MCall' and base.get('m') in ('byte_range', 'clone')):
+            base = H.strip_refs(base['e'] if base.get('k') == 'Field' else base['recv'])
+        ends[f['f']] = (orgs[0]['f'], base)
+    if set(ends) != {'start', 'end'}:
+        return None
+    (sf, a), (ef, b) = ends['start'], ends['end']
+    if pp(a, maxlen=200) == pp(b, maxlen=200):
+        return None if (sf, ef) != ('end', 'start') else 'range runs from the end of `%s` to its start' % pp(a, maxlen=40)
+    if (sf, ef) != ('start', 'end'):
+        return None
+    if not (a.get('k') == 'Index' and b.get('k') == 'Index' and pp(a['e'], maxlen=200) == pp(b['e'], maxlen=200)):
+        return None
+    i, j = H.strip_refs(a['i']), H.strip_refs(b['i'])
+    if isinstance(H.lit_value(i), int) and isinstance(H.lit_value(j), int):
+        return None if H.lit_value(i) <= H.lit_value(j) else 'range from element %d to the earlier element %d' % (H.lit_value(i), H.lit_value(j))
+    ti, tj = pp(i, maxlen=200), pp(j, maxlen=200)
+    for anc in H.ancestors(fn, rng):
+        if anc.get('k') != 'If' or anc['c'].get('k') != 'Binary' or not any(x is rng for x in walk(anc['then'])):
+            continue
+        c = anc['c']
+        P, Q, op = pp(H.strip_refs(c['l']), maxlen=200), pp(H.strip_refs(c['r']), maxlen=200), c['op']
+        if op in ('Lt', 'Le'):
+            P, Q, op = Q, P, {'Lt': 'Gt', 'Le': 'Ge'}[op]
+        # P > Q: Q <= P - 1
+        if op == 'Gt' and ti == Q and tj == '(%s Sub 1)' % P:
+            return None
+        if op in ('Gt', 'Ge') and ti == Q and tj == P:
+            return None
+    return 'the start of element [%s] and the end of element [%s] of `%s`, with no enclosing test that puts the first before the second (start > end for some inputs)' % (ti, tj, pp(a['e'], maxlen=40))
 
 
 def visited_guard_ok(crate, fn, loop):
